@@ -40,6 +40,11 @@ POOLS = {
         "Mg": ({"Mg": 1}, 0), "Mg+": ({"Mg": 1}, 1), "MgH": ({"Mg": 1, "H": 1}, 0), "H": ({"H": 1}, 0), "H+": ({"H": 1}, 1), "H2": ({"H": 2}, 0), "oH2": ({"H": 2}, 0), "pH2": ({"H": 2}, 0),
         "H3+": ({"H": 3}, 1), "pH3+": ({"H": 3}, 1), "e-": ({}, -1), "C": ({"C": 1}, 0), "CH": ({"C": 1, "H": 1}, 0), "c-C3H": ({"C": 3, "H": 1}, 0), "l-C3H": ({"C": 3, "H": 1}, 0), "C2": ({"C": 2}, 0),
     },
+    # names that differ only by the case of one letter: para-H2 / PH2 (phosphorus dihydride), para-H3+ / PH3+
+    "case": {
+        "H": ({"H": 1}, 0), "H+": ({"H": 1}, 1), "H2": ({"H": 2}, 0), "pH2": ({"H": 2}, 0), "oH2": ({"H": 2}, 0), "H3+": ({"H": 3}, 1), "pH3+": ({"H": 3}, 1), "e-": ({}, -1),
+        "P": ({"P": 1}, 0), "P+": ({"P": 1}, 1), "PH": ({"P": 1, "H": 1}, 0), "PH2": ({"P": 1, "H": 2}, 0), "PH3+": ({"P": 1, "H": 3}, 1), "PH+": ({"P": 1, "H": 1}, 1),
+    },
     # formulas that mention an element symbol in several places (composition computed by hand)
     "repeat": {
         "H": ({"H": 1}, 0), "C": ({"C": 1}, 0), "O": ({"O": 1}, 0), "N": ({"N": 1}, 0), "H2": ({"H": 2}, 0), "OH": ({"O": 1, "H": 1}, 0),
